@@ -46,6 +46,8 @@ impl SessionTracker {
     }
 
     pub(crate) fn add(&mut self, sender: tokio::sync::mpsc::Sender<ServerCommand>) -> u128 {
+        #[cfg(feature = "verif-hooks")]
+        let mut evicted = None;
         if self.sessions.len() >= self.max_sessions {
             if let Some(oldest) = self.sessions.keys().next().copied() {
                 tracing::warn!(
@@ -55,16 +57,31 @@ impl SessionTracker {
                 // when the record drops, and there are no more senders,
                 // the other end will stop the task
                 self.sessions.remove(&oldest);
+                #[cfg(feature = "verif-hooks")]
+                {
+                    evicted = Some(oldest);
+                }
             }
         }
 
         let id = self.get_next_id();
         self.sessions.insert(id, sender);
+        #[cfg(feature = "verif-hooks")]
+        crate::verif::emit(crate::verif::Event::Track {
+            id,
+            evicted,
+            size: self.sessions.len(),
+        });
         id
     }
 
     pub(crate) fn remove(&mut self, id: u128) {
         self.sessions.remove(&id);
+        #[cfg(feature = "verif-hooks")]
+        crate::verif::emit(crate::verif::Event::Untrack {
+            id,
+            size: self.sessions.len(),
+        });
     }
 }
 
@@ -182,6 +199,11 @@ where
                             return;
                         }
                         Ok((socket, addr)) => {
+                            #[cfg(feature = "verif-hooks")]
+                            crate::verif::emit(crate::verif::Event::Filter {
+                                addr: addr.ip(),
+                                matches: self.filter.matches(addr.ip()),
+                            });
                             if self.filter.matches(addr.ip()) {
                                 if let Err(err) = socket.set_nodelay(true) {
                                     tracing::warn!("unable to enable TCP_NODELAY: {}", err);
